@@ -339,3 +339,40 @@ def answer_field(run, PV, fn, cls, expr, at, depth=0, ignore_const_defs=False):
     if isinstance(e, ast.Call):
         return e, idx
     return None, f"it is `{norm(e)[:50]}`"
+
+
+def expansions(run, PV, fn, cls, expr, node, stop=(), fold=True):
+    """Canonical texts of `expr` at CFG node `node`: local names replaced by their reaching definitions
+    (path-sensitively when the function is loop-free up to the node), class / module constants folded, redundant
+    parentheses dropped.  The comparison key for "is this expression the specified construction"."""
+    from sa.decide import values_at
+    from sa.canon import fold_consts
+    try:
+        vs = values_at(run.A, fn, cls, node, expr) if not stop else None
+    except AnalysisError:
+        vs = None
+    if vs is None:
+        vs = PV.expand_consistent(fn, cls, expr, node, stop=stop)
+    out = set()
+    locs = set(PV.defs(fn, cls)) | set(getattr(fn, "params", []))
+    for v in vs:
+        try:
+            e = ast.parse(v, mode="eval").body
+            if fold:
+                e = fold_consts(run.P, e, fn, cls, locals_=locs)
+            out.add(ast.unparse(e))
+        except SyntaxError:
+            out.add(v)
+    return out
+
+
+def canon_text(run, fn, cls, text, fold=True, locals_=()):
+    """The same canonicalisation applied to an expected text."""
+    from sa.canon import fold_consts
+    try:
+        e = ast.parse(text, mode="eval").body
+    except SyntaxError:
+        return text
+    if fold:
+        e = fold_consts(run.P, e, fn, cls, locals_=set(locals_))
+    return ast.unparse(e)
